@@ -6,8 +6,14 @@
 (*   Ret{id, res}      written after the call returned, with its result                              *)
 (*   Race{var, sites}  the Go race detector reported two unsynchronised accesses in Vouch's code     *)
 (*   Fatal{text}       the process died of a fatal runtime error (concurrent map access)             *)
+(*   Crash{where, text, site}  a panic of Vouch's code on a goroutine (recovered by the harness, or   *)
+(*                     the process died of it)                                                        *)
+(*   Hung{text}        a call that never returned / a goroutine of the service that never finished    *)
 (* Between two lines TLC may place the linearization points of pending calls (silent Linearize        *)
-(* steps).  Race and Fatal have no action: a history containing one is rejected at that line.         *)
+(* steps; a call of group syncduty passes several) and the steps of goroutines that are no call of the *)
+(* history (SilentStep: a message job that a head event started, the scheduling goroutines of a        *)
+(* refresh).  Race, Fatal, Crash and Hung have no action: a history containing one is rejected at that  *)
+(* line.                                                                                              *)
 EXTENDS Concurrency, TraceLib
 
 VARIABLE l
@@ -24,7 +30,7 @@ TraceInit ==
 IsEvent(e) == l <= TraceLen /\ Trace[l].ev = e /\ l' = l + 1
 
 \* sets travel as JSON arrays
-Dec(o) == [k \in DOMAIN o |-> IF k \in {"x", "v"} /\ o.op \in {"NodeSet", "Attest", "Round", "RestRegs", "Offer"} THEN SeqToSet(o[k]) ELSE o[k]]
+Dec(o) == [k \in DOMAIN o |-> IF k \in {"x", "v", "acct"} /\ o.op \in {"NodeSet", "Attest", "Round", "RestRegs", "Offer", "Env"} THEN SeqToSet(o[k]) ELSE o[k]]
 
 TraceReset ==
     /\ IsEvent("Reset")
@@ -50,7 +56,12 @@ TraceRet ==
          /\ calls' = [calls EXCEPT ![i].status = "returned"]
     /\ UNCHANGED <<g, st, lin>>
 
-TraceNext == TraceReset \/ TraceInv \/ TraceLinearize \/ TraceRet
+TraceSilent ==
+    /\ l <= TraceLen
+    /\ SilentStep
+    /\ UNCHANGED l
+
+TraceNext == TraceReset \/ TraceInv \/ TraceLinearize \/ TraceSilent \/ TraceRet
 
 TraceSpec == TraceInit /\ [][TraceNext]_tvars
 
